@@ -108,9 +108,12 @@ func (l *fakeListener) Addr() net.Addr { return fakeAddr{} }
 
 // fakeConn is the server side of an in-memory connection.
 type fakeConn struct {
-	c      *loopConn
-	NClose int
-	closed bool
+	c         *loopConn
+	NClose    int
+	closed    bool
+	nread     int
+	readErrAt int  // the k-th Read fails with ErrInjected (-1: never)
+	Failed    bool // the injected read error has fired
 }
 
 func (f *fakeConn) Read(p []byte) (int, error) {
@@ -123,6 +126,15 @@ func (f *fakeConn) Read(p []byte) (int, error) {
 }
 
 func (f *fakeConn) readOrClosed(p []byte) (int, error) {
+	k := f.nread
+	f.nread++
+	if k == f.readErrAt {
+		rt.Yield("conn:readfault")
+		f.Failed = true
+		f.c.w().r.Fault("conn-read-error")
+		f.c.w().r.Ev("conn.fault", fmt.Sprint("conn", f.c.Idx), 0, 0, "")
+		return 0, ErrInjected
+	}
 	s := f.c.in
 	rt.Block("conn:read", func() bool { return len(s.buf) > 0 || s.closed || f.closed })
 	if f.closed && len(s.buf) == 0 {
@@ -329,10 +341,17 @@ func scenarioC20(r *Run) {
 		if w.netPop {
 			c.in, c.out = NewSimStream(r), NewSimStream(r)
 			c.in.Mode, c.out.Mode = 2, 2
-			c.fc = &fakeConn{c: c}
+			c.fc = &fakeConn{c: c, readErrAt: -1}
+			if g.Chance("connfault", 0.2) {
+				c.fc.readErrAt = g.Int("connfaultat", 4)
+			}
 		} else {
 			c.sEnd, c.pEnd = NewPipe(r, fmt.Sprint("srv", i), fmt.Sprint("peer", i))
 			c.sEnd.CloseUnblocks = g.Chance("closeunblocks", 0.6)
+			if g.Chance("connfault", 0.2) {
+				// the connection fails under the server: its status carries the error
+				c.sEnd.FaultRecvAt[g.Int("connfaultat", 4)] = []int{fRecvErr, fRecvDataErr}[g.Int("connfaultkind", 2)]
+			}
 		}
 		for k := 0; k < c.Calls; k++ {
 			w.th.add(fmt.Sprintf("c%d.%d", i, k), g.Int("hsteps", 3), g.Chance("hold", 0.3))
@@ -477,6 +496,7 @@ func (w *loopWorld) check(failErr error, ctxErrClosed bool) {
 		r.Fail("finish-count", "%d connections were accepted but newService was called %d times", w.accepted, len(w.svcs))
 		return
 	}
+	nerr := 0
 	for _, s := range w.svcs {
 		if s.NAssigner != 1 {
 			r.Fail("finish-count", "service %d: Assigner called %d times", s.Idx, s.NAssigner)
@@ -507,9 +527,26 @@ func (w *loopWorld) check(failErr error, ctxErrClosed bool) {
 			return
 		}
 		st := f.Status
-		if (st.Stopped && st.Closed) || st.Err != nil || (!st.Stopped && !st.Closed) {
-			r.Fail("finish-wrong-args", "service %d: Finish received status %+v; no channel failed, want exactly one of Stopped/Closed", s.Idx, st)
+		nflags := 0
+		for _, b := range []bool{st.Stopped, st.Closed, st.Err != nil} {
+			if b {
+				nflags++
+			}
+		}
+		if nflags != 1 {
+			r.Fail("finish-wrong-args", "service %d: Finish received status %+v; want exactly one of Stopped, Closed or an error", s.Idx, st)
 			return
+		}
+		if st.Err != nil {
+			nerr++
+			if !errors.Is(st.Err, ErrInjected) {
+				r.Fail("finish-wrong-args", "service %d: Finish received the error %v, which is not the error of its connection", s.Idx, st.Err)
+				return
+			}
+			if c := s.conn; c != nil && !connFailed(c) {
+				r.Fail("finish-wrong-args", "service %d: Finish received an error status but its connection did not fail", s.Idx)
+				return
+			}
 		}
 		if c := s.conn; c != nil {
 			// the server's channel was closed before Finish
@@ -527,6 +564,9 @@ func (w *loopWorld) check(failErr error, ctxErrClosed bool) {
 			// status consistent with the cause
 			ctxBefore := w.cancelSeq >= 0 && w.cancelSeq < f.Seq
 			clientBefore := c.ClientClosed >= 0 && c.ClientClosed < f.Seq
+			if st.Err != nil {
+				continue
+			}
 			if st.Stopped && !ctxBefore {
 				r.Fail("finish-wrong-args", "service %d: status Stopped, but the context had not ended before Finish (#%d)", s.Idx, f.Seq)
 				return
@@ -536,6 +576,19 @@ func (w *loopWorld) check(failErr error, ctxErrClosed bool) {
 				return
 			}
 		}
+	}
+	nfailed := 0
+	for _, c := range w.conns {
+		if connFailed(c) {
+			nfailed++
+		}
+	}
+	if nerr > nfailed {
+		r.Fail("finish-wrong-args", "%d services were finished with an error status but only %d connections failed", nerr, nfailed)
+		return
+	}
+	if nfailed > 0 {
+		r.Probe("connection-failed-under-a-server")
 	}
 	// an Assigner failure closes the accepted connection
 	nfail := 0
@@ -601,4 +654,11 @@ func (w *loopWorld) check(failErr error, ctxErrClosed bool) {
 	if len(left) > 0 {
 		r.Fail("goroutine-left", "after Loop returned: %v", left)
 	}
+}
+
+func connFailed(c *loopConn) bool {
+	if c.fc != nil {
+		return c.fc.Failed
+	}
+	return c.sEnd != nil && c.sEnd.Failed
 }
